@@ -48,7 +48,7 @@ func (C01) Generate(r *rand.Rand, tier string, idx int) *drv.Scenario {
 		}
 	}
 	g := GenKVHistory(r, o)
-	return &drv.Scenario{Family: fam, Knobs: baseKnobs(r), Steps: g.Steps}
+	return &drv.Scenario{Family: fam, Knobs: baseKnobs(r), Steps: g.Steps, Fixed: g.Fixed}
 }
 
 func (C01) Execute(sc *drv.Scenario, w *drv.World) (*drv.Violation, error) {
